@@ -127,6 +127,37 @@ class _Env:
                     out.append("!" + type(e).__name__)
         return out
 
+    def behave_asym(self):
+        """What value propagation does on operators that ONE evaluating backend cannot evaluate and the other can
+        (16-bit integer Max / Min: onnxruntime has no kernel; StringNormalizer where the runtime lacks the locale), always
+        with the SAME operator, element type and shape (fresh constants each time): something remembered about a node
+        signature from the time another backend was selected (a negative cache keyed without the backend) shows here."""
+        import warnings
+
+        import numpy as np
+
+        op = self.op
+        n = int(getattr(self, "asym_len", 2))  # one shape per history: what one history leaves behind cannot colour the next
+
+        def c(vals, dt):
+            return op.const(np.resize(np.array(vals, dt), n))
+
+        cands = [
+            ("max_i16", lambda: op.max([c([1, 5], np.int16), c([3, 2], np.int16)])),
+            ("min_u16", lambda: op.min([c([1, 5], np.uint16), c([3, 2], np.uint16)])),
+            ("add_i16", lambda: op.add(c([1, 5], np.int16), c([3, 2], np.int16))),
+        ]
+        out = []
+        with warnings.catch_warnings():
+            warnings.simplefilter("ignore")
+            for name, f in cands:
+                try:
+                    v = getattr(f(), "_value", None)
+                    out.append(f"{name}={'no-value' if v is None else v.value.tolist()[:2]}")
+                except Exception as e:  # noqa: BLE001
+                    out.append(f"{name}=!{type(e).__name__}")
+        return "|".join(out)
+
     def read(self):
         """The three globals as model values; -1 for one that is not where it used to be (registered in
         `unobservable`, never raised: the behavioural oracle does not need them)."""
@@ -258,6 +289,13 @@ def run_real(env: _Env, blocks, init, behave=False):
     log      : snapshots exactly where the model takes them (entering a body; after a block exit)
     records  : per block (which, arg, pre, inside, post, raised) for the model-free oracle
     """
+    def _has_backend_block(bs):
+        return any(b["which"] == 1 or _has_backend_block(b["inner"]) for b in bs)
+
+    # (the asymmetric-operator probes cost several evaluator start-ups: a budget of histories per run; replays have none)
+    use_asym = behave and _has_backend_block(blocks) and getattr(env, "asym_left", 1) > 0
+    if use_asym and hasattr(env, "asym_left"):
+        env.asym_left -= 1
     if behave:
         # every behavioural history starts from the same past: the main constant computation has been
         # evaluated under both evaluating backends, in this order (so that a verdict does not depend on
@@ -287,6 +325,8 @@ def run_real(env: _Env, blocks, init, behave=False):
                "raises": b["raises"]}
         if behave:
             rec["bpre"] = env.behave()
+            if use_asym:
+                rec["apre"] = env.behave_asym()
             env.nonce = getattr(env, "nonce", 0) + 1  # a constant never evaluated before in this process
             rec["nonce"] = env.nonce
         records.append(rec)
@@ -296,6 +336,8 @@ def run_real(env: _Env, blocks, init, behave=False):
             log.append(env.read())
             if behave:
                 rec["binside"] = env.behave(nonce=rec["nonce"])
+                if use_asym:
+                    rec["ainside"] = env.behave_asym()
                 blog.append(rec["binside"][:3])
             for ib in b["inner"]:
                 run_block(ib)
@@ -337,6 +379,8 @@ def run_real(env: _Env, blocks, init, behave=False):
             if behave:
                 # the constant first evaluated inside the block is evaluated again, byte for byte, after it
                 rec["bpost"] = env.behave(nonce=rec.get("nonce"))
+                if use_asym:
+                    rec["apost"] = env.behave_asym()
                 blog.append(rec["bpost"][:3])
 
     for b in blocks:
@@ -386,6 +430,15 @@ def behaviour_oracle(records, baseline):
             bad.append((MANAGERS[1], "behaviour-not-restored", r,
                         f"a computation first made inside the block evaluates to {r['bpost'][3]!r} when repeated after it; "
                         f"the setting in force before the block gives {r['bpre'][1]!r}"))
+        if r.get("apost") is not None and r.get("apre") is not None and r["apost"] != r["apre"]:
+            bad.append((MANAGERS[1], "behaviour-not-restored", r,
+                        f"operators only one backend can evaluate (same operator, element type, shape) propagate {r['apre']!r} "
+                        f"before the block and {r['apost']!r} after it"))
+        if (r["which"] == 1 and r.get("ainside") is not None and baseline is not None and len(baseline) > 3
+                and baseline[3][r["arg"]] is not None and r["ainside"] != baseline[3][r["arg"]]):
+            bad.append((MANAGERS[1], "behaviour-not-in-force-inside", r,
+                        f"inside the block operators only one backend can evaluate propagate {r['ainside']!r}; under the entered "
+                        f"backend alone: {baseline[3][r['arg']]!r}"))
         j = r["which"]
         if r.get("binside") is not None and baseline is not None and r["binside"][j] != baseline[j][r["arg"]]:
             bad.append((MANAGERS[j], "behaviour-not-in-force-inside", r,
@@ -401,6 +454,7 @@ def baselines(env: _Env, ck=None):
     import subprocess
 
     base = [[None] * N_ARGS[0], [None] * N_ARGS[1], [None] * (N_ARGS[2] + 1)]
+    asym = [None] * N_ARGS[1]  # behave_asym under each backend (returned as base[3])
     code = (
         "import sys, json, warnings\n"
         "warnings.simplefilter('ignore')\n"
@@ -412,7 +466,7 @@ def baselines(env: _Env, ck=None):
         "    keep = env.manager(j, k)  # stays referenced: a collected generator manager would run its finally\n"
         "    keep.__enter__()\n"
         "env.prepare_probes()\n"
-        "print(json.dumps(env.behave()[j]))\n"
+        "print(json.dumps([env.behave()[j], env.behave_asym() if j == 1 else None]))\n"
     )
     e = dict(os.environ, PYTHONPATH=f"{core.REPO / 'src'}:{core.VERIF}")
     jobs = [(j, k) for j in range(3) for k in range(len(base[j]))]
@@ -421,11 +475,211 @@ def baselines(env: _Env, ck=None):
     for (j, k), pr in zip(jobs, procs):
         out, err = pr.communicate(timeout=180)
         try:
-            base[j][k] = json.loads(out.strip().splitlines()[-1])
+            got_ = json.loads(out.strip().splitlines()[-1])
+            base[j][k] = got_[0]
+            if j == 1:
+                asym[k] = got_[1]
         except Exception:  # noqa: BLE001
             if ck is not None:
                 ck.broken("correspondence", f"C16 baseline of {MANAGERS[j]}={k} not observable", (err or out)[-300:])
+    base.append(asym)
     return base
+
+
+
+# --------------------------------------------------------------------------- settings seen THROUGH lazily constructed objects
+# A callable whose body spox runs later - a `to_function` function, a Function class, a subgraph callback, an
+# `inline` callback - is "code running" at the time of each CALL: what its body sees must be the settings in force
+# at that call, whether the object was created / first used inside a block and is used again after the block exit,
+# or the other way round. A setting captured at creation or first use and re-installed later (however balanced)
+# violates "affect only code running inside them ... the previously effective setting is back in force".
+CARRIER_KINDS = ["to_function", "function-class", "if-callback", "loop-callback", "inline", "vars-created-here", "plain-closure"]
+
+
+def probe_small(env: _Env):
+    """[warning level, backend, dispatch] as `behave` sees them (the three main probes)."""
+    return env.behave()[:3]
+
+
+def make_carrier(env: _Env, kind, tag):
+    """-> use(): list of behaviour snapshots taken by the body each time spox ran it during this use."""
+    import warnings
+
+    import numpy as np
+    from spox import Tensor, argument
+
+    op = env.op
+    seen = []
+
+    def body_probe():
+        seen.append(probe_small(env))
+
+    if kind == "to_function":
+        from spox._function import to_function
+
+        @to_function(f"C16Carrier{tag}", "c16.carrier")
+        def fn(x):
+            body_probe()
+            return [op.identity(x)]
+
+        def use():
+            fn(argument(Tensor(np.float32, (2,))))
+    elif kind == "function-class":
+        from spox._function import _make_function_cls
+
+        def ctor(x):
+            body_probe()
+            return [op.identity(x)]
+
+        cls = _make_function_cls(ctor, 1, 1, "c16.carrier", 0, f"C16Cls{tag}")
+
+        def use():
+            cls(cls.Attributes(), cls.Inputs(argument(Tensor(np.float32, (2,)))))
+    elif kind == "if-callback":
+        def then_():
+            body_probe()
+            return [op.const(np.float32(1.0))]
+
+        def else_():
+            body_probe()
+            return [op.const(np.float32(2.0))]
+
+        def use():
+            op.if_(argument(Tensor(np.bool_, ())), then_branch=then_, else_branch=else_)
+    elif kind == "loop-callback":
+        def loop_body(i, c, acc):
+            body_probe()
+            return [c, op.add(acc, acc)]
+
+        def use():
+            op.loop(argument(Tensor(np.int64, ())), v_initial=[argument(Tensor(np.float32, ()))], body=loop_body)
+    elif kind == "inline":
+        from onnx import TensorProto, helper
+
+        from spox import inline
+
+        g = helper.make_graph([helper.make_node("Cast", ["x"], ["y"], to=TensorProto.STRING)], "g",
+                              [helper.make_tensor_value_info("x", TensorProto.FLOAT, [])],
+                              [helper.make_tensor_value_info("y", TensorProto.STRING, [])])
+        call = inline(helper.make_model(g, opset_imports=[helper.make_opsetid("", 17)]))
+
+        def use():
+            # no user code runs; what an inlined model computes for a constant is decided by the backend in force
+            y = call(env.p_const)["y"]
+            val = getattr(y, "_value", None)
+            seen.append([None, "no-value" if val is None else str(val.value.tolist()), None])
+    elif kind == "vars-created-here":
+        # Vars (arguments, a constant) that come into being where the carrier is created - possibly inside a block -
+        # and are operated on later: what `a + b` / a warning-prone construction does is decided at the time of use
+        with warnings.catch_warnings():
+            warnings.simplefilter("ignore")
+            a, b, i64, unk = (argument(Tensor(np.float32, ())), argument(Tensor(np.float32, ())), argument(Tensor(np.int64, ())),
+                              argument(Tensor(np.float32)))
+
+        def use():
+            def disp(f):
+                try:
+                    r = f()
+                    return r.type.dtype.name if hasattr(r, "type") else type(r).__name__
+                except Exception as e:  # noqa: BLE001
+                    return type(e).__name__
+
+            with warnings.catch_warnings(record=True) as w:
+                warnings.simplefilter("always")
+                try:
+                    op.abs(unk)
+                    third = str(min(len(w), 1))
+                except Exception as e:  # noqa: BLE001
+                    third = "!" + type(e).__name__
+            direct_lvl = probe_small(env)[0]
+            seen.append([direct_lvl[:2] + third, None, "|".join([disp(lambda: a + b), disp(lambda: i64 + a), disp(lambda: a + 2.5)])])
+    else:  # a plain Python closure: the control (nothing of spox in between)
+        def use():
+            body_probe()
+
+    def run():
+        del seen[:]
+        with warnings.catch_warnings():
+            warnings.simplefilter("ignore")
+            use()
+        return [list(x) for x in seen]
+
+    return run
+
+
+def gen_carrier_scenario(rng: random.Random, k):
+    """blocks: a small forest over one or two settings; the carrier is created `create` = 'before' | 'first-body'
+    and used at every point (before the history if created before; on entering each body; after each exit)."""
+    which = k % 3
+    kind = CARRIER_KINDS[(k // 3) % len(CARRIER_KINDS)]
+    def arg(w, avoid=None):
+        vals = [v for v in range(1 if w == 2 else 0, N_ARGS[w] + (1 if w == 2 else 0)) if v != avoid]
+        return rng.choice(vals)
+    a1 = arg(which)
+    shape = rng.choice(["single", "nested-same", "successive", "nested-other"])
+    blk = lambda w, a, inner=(), raises=False: {"which": w, "arg": a, "inner": list(inner), "raises": raises}  # noqa: E731
+    if shape == "single":
+        blocks = [blk(which, a1, raises=rng.random() < 0.3)]
+    elif shape == "nested-same":
+        blocks = [blk(which, a1, [blk(which, arg(which, a1), raises=rng.random() < 0.3)])]
+    elif shape == "successive":
+        blocks = [blk(which, a1), blk(which, arg(which, a1))]
+    else:
+        o = (which + 1 + rng.randrange(2)) % 3
+        blocks = [blk(o, arg(o), [blk(which, a1)])]
+    init = [rng.randrange(4), rng.randrange(1, 3), 0]
+    if which == 2 and rng.random() < 0.5:
+        init[2] = arg(2, a1)
+    return {"kind": kind, "create": rng.choice(["before", "first-body", "first-body"]), "init": init, "blocks": blocks}
+
+
+def run_carrier_scenario(env: _Env, sc, tag=0):
+    """-> list of (point, settings read, direct behaviour, [behaviour seen by the carrier's body ...])"""
+    env.write(sc["init"])
+    out = []
+    carrier = [None]
+
+    def use(point):
+        if carrier[0] is None:
+            carrier[0] = make_carrier(env, sc["kind"], tag)
+        direct = probe_small(env)
+        out.append((point, env.read(), direct, carrier[0]()))
+
+    if sc["create"] == "before":
+        use("before any block")
+
+    def run_block(b, depth):
+        try:
+            with env.manager(b["which"], b["arg"]):
+                use(f"inside {MANAGERS[b['which']]}={b['arg']}")
+                for ib in b["inner"]:
+                    run_block(ib, depth + 1)
+                if b["inner"]:
+                    use(f"inside {MANAGERS[b['which']]}={b['arg']} after the inner block")
+                if b["raises"]:
+                    raise _Boom("body")
+        except _Boom:
+            pass
+        use(f"after {MANAGERS[b['which']]}={b['arg']}")
+
+    for b in sc["blocks"]:
+        run_block(b, 0)
+    return out
+
+
+def carrier_oracle(sc, records):
+    """Model-free: every time spox ran the carrier's body, the body saw the behaviour that code written directly at
+    the call site sees (the settings in force at the call)."""
+    bad = []
+    for point, glob, direct, seen in records:
+        for snap in seen:
+            for j in range(3):
+                if snap[j] is not None and snap[j] != direct[j]:
+                    bad.append((MANAGERS[j], f"stale-inside-{sc['kind']}",
+                                f"the body of a {sc['kind']} object used {point} behaves {snap[j]!r}; code at the call site behaves "
+                                f"{direct[j]!r} (settings {glob}; object created {sc['create']})"))
+                    break
+    return bad
 
 
 # --------------------------------------------------------------------------- settings as decorators on GENERATOR functions
@@ -589,6 +843,12 @@ def run(ck: core.Check):
         ck.cov["write_sites"] = ctx_writes.generate()
     except Exception as e:  # noqa: BLE001
         ck.broken("generated", "C16 write-site inventory", f"{type(e).__name__}: {e}")
+    try:
+        from translator import module_state
+
+        ck.cov["module_state"] = module_state.generate()
+    except Exception as e:  # noqa: BLE001
+        ck.broken("generated", "C16 module-state inventory", f"{type(e).__name__}: {e}")
     ck.lean(["SpoxModel.Props.C16"], audit="SpoxModel.Audit.C16")
     if ck.thorough:
         ck.leanchecker(["SpoxModel.Props.C16"])
@@ -687,13 +947,18 @@ def run(ck: core.Check):
     finally:
         env.write(saved)
     ck.cov["decorated_generators"] = gstats
+    ck.log("globals histories + decorated generators done")
 
     # ---------------------------------------------------------------- behaviour: what the settings DO, not what the globals read
     bstats = {"histories": 0, "behaviour_snapshots": 0, "mismatches": 0}
     try:
         env.prepare_probes()
+        env.asym_left = ck.pick(18, 150)
         base = baselines(env, ck)
         ck.cov["behaviour_baselines"] = {MANAGERS[j]: base[j] for j in range(3)}
+        ck.cov["behaviour_baselines"]["asymmetric_operators_per_backend"] = base[3] if len(base) > 3 else None
+        if len(base) > 3 and None not in base[3] and len(set(base[3][1:])) < 2:
+            ck.broken("generator", "C16 no operator separates the two evaluating backends", str(base[3]))
         for j in range(3):
             if None not in base[j] and len(set(map(str, base[j]))) < len(base[j]):
                 # the probes must tell the values of a setting apart, or the behavioural tie says nothing
@@ -716,14 +981,15 @@ def run(ck: core.Check):
         except Exception as e:  # noqa: BLE001
             ck.broken("correspondence", "C16 driver", str(e))
             bmodel = [None] * len(bcases)
-        for (blocks, init), m in zip(bcases, bmodel):
+        for k_hist, ((blocks, init), m) in enumerate(zip(bcases, bmodel)):
+            env.asym_len = 2 + k_hist
             final, log, records, blog = run_real(env, blocks, init, behave=True)
             bstats["histories"] += 1
             bstats["behaviour_snapshots"] += len(blog)
             ck.count(("behaviour", repr(init), repr(strip(blocks))))
             for mgr, kind, rec, what in behaviour_oracle(records, base):
                 ck.failure(f"{mgr}:{kind}", f"{mgr}: {what} (block enters {rec['arg']}, globals before/after {rec['pre']}/{rec['post']})",
-                           {"init": init, "blocks": blocks, "behaviour": True})
+                           {"init": init, "blocks": blocks, "behaviour": True, "asym_len": env.asym_len})
             if m is not None and "error" not in m:
                 want = [init] + m["log"]
                 if len(want) != len(blog):
@@ -742,6 +1008,56 @@ def run(ck: core.Check):
     finally:
         env.write(saved)
     ck.cov["behaviour"] = bstats
+    ck.log("behavioural histories done")
+
+    # ---------------------------------------------------------------- settings seen through lazily constructed objects
+    cstats = {"scenarios": 0, "uses": 0, "body_runs": 0, "kinds": {}, "not_observable": {}}
+    try:
+        if not hasattr(env, "p_const"):
+            env.prepare_probes()
+        n_car = ck.pick(35, 315)
+        scs_ = [gen_carrier_scenario(rng, k) for k in range(n_car)]
+        try:
+            cmodel = ck.driver().ask_many("C16", [{"init": sc["init"], "blocks": strip(sc["blocks"])} for sc in scs_])
+        except Exception as e:  # noqa: BLE001
+            ck.broken("correspondence", "C16 driver", str(e))
+            cmodel = [None] * n_car
+        for k in range(n_car):
+            sc = scs_[k]
+            try:
+                recs = run_carrier_scenario(env, sc, tag=k)
+            except Exception as e:  # noqa: BLE001
+                cstats["not_observable"].setdefault(sc["kind"], f"{type(e).__name__}: {e}"[:200])
+                continue
+            finally:
+                env.write(saved)
+            cstats["scenarios"] += 1
+            cstats["uses"] += len(recs)
+            cstats["body_runs"] += sum(len(r[3]) for r in recs)
+            cstats["kinds"][sc["kind"]] = cstats["kinds"].get(sc["kind"], 0) + 1
+            ck.count(("carrier", repr(sc)))
+            for mgr, kind, what in carrier_oracle(sc, recs):
+                ck.failure(f"{mgr}:{kind}", f"{mgr}: {what}", {"carrier": sc, "tag": k})
+            # correspondence: the settings read at the use points on entering a body / after an exit are the model's snapshots
+            m_ = cmodel[k]
+            if m_ is not None and "error" not in m_:
+                real_log = [r[1] for r in recs if not r[0].startswith("before") and "after the inner block" not in r[0]]
+                if real_log != m_["log"] and -1 not in [x for r_ in real_log for x in r_]:
+                    cstats["model_mismatches"] = cstats.get("model_mismatches", 0) + 1
+                    if cstats["model_mismatches"] <= 3:
+                        ck.broken("correspondence", "C16 carrier scenario: settings at the use points vs the model's snapshots",
+                                  f"{sc}: model {m_['log']} real {real_log}")
+        for kind_, why in cstats["not_observable"].items():
+            ck.broken("correspondence", f"C16 carrier {kind_} not observable", why)
+        if cstats["body_runs"] < cstats["scenarios"]:
+            ck.broken("generator", "C16 carrier scenarios starved", str(cstats))
+    except Exception as e:  # noqa: BLE001
+        ck.broken("correspondence", "C16 carrier scenarios not observable", f"{type(e).__name__}: {e}")
+    finally:
+        env.write(saved)
+    ck.cov["carriers"] = cstats
+    ck.log("carrier scenarios done")
+
 
     ck.cov.update(
         {
@@ -771,6 +1087,13 @@ def replay(ck: core.Check, doc) -> bool:
     saved = env.read()
     case = doc["case"]
     try:
+        if case.get("carrier"):
+            env.prepare_probes()
+            recs = run_carrier_scenario(env, case["carrier"], tag=case.get("tag", 0))
+            bad4 = carrier_oracle(case["carrier"], recs)
+            for m_, k_, w_ in bad4:
+                print(f"{m_}: {k_}: {w_}")
+            return bool(bad4)
         if case.get("generators"):
             final, _ = run_generator_scenario(env, case["generators"])
             bad3 = generator_oracle(case["generators"], final)
@@ -779,6 +1102,7 @@ def replay(ck: core.Check, doc) -> bool:
             return bool(bad3)
         if case.get("behaviour"):
             env.prepare_probes()
+            env.asym_len = case.get("asym_len", 2)
             base = baselines(env)
             _, _, records, _ = run_real(env, case["blocks"], case["init"], behave=True)
             bad = [(m, k, r) for m, k, r, w in behaviour_oracle(records, base)]
